@@ -6,10 +6,12 @@
 package vnet
 
 import (
+	"encoding/json"
 	"errors"
 	"fmt"
 	"net"
 	"net/netip"
+	"os"
 	"time"
 	"verif/core"
 
@@ -25,6 +27,7 @@ import (
 	"github.com/mycoria/mycoria/storage"
 	"github.com/mycoria/mycoria/switchr"
 	"github.com/mycoria/mycoria/tun"
+	"gopkg.in/yaml.v3"
 
 	"verif/ids"
 )
@@ -74,6 +77,9 @@ type NodeOpts struct {
 	// WithTun gives the node a fake tun device made of its exported channels.
 	// Without it the config gets disableTun (router rejects all traffic).
 	WithTun bool
+	// ViaFile ("json" or "yaml") loads the configuration through a file of that
+	// type (config.LoadConfig) instead of using the parsed value directly.
+	ViaFile string
 }
 
 // Net is a set of nodes plus the frames in flight between them.
@@ -88,7 +94,7 @@ type Net struct {
 	Panics []string
 	// SendErrs lists the frames a link writer refused (it drops them, as the real writer does).
 	SendErrs []string
-	seq    int
+	seq      int
 }
 
 // InFlight is a frame travelling over a virtual link.
@@ -127,6 +133,15 @@ func (vn *Net) AddNode(name string, id *ids.Identity, opts NodeOpts) (*Node, err
 	cfg, err := st.Parse()
 	if err != nil {
 		return nil, fmt.Errorf("config: %w", err)
+	}
+	if opts.ViaFile != "" {
+		// The way the program gets its configuration: from a file, written here
+		// with the documented key names (JSON and YAML use the same ones).
+		fcfg, ferr := loadViaFile(st, opts.ViaFile)
+		if ferr != nil {
+			return nil, fmt.Errorf("config accepted as a value is refused as a %s file: %w", opts.ViaFile, ferr)
+		}
+		cfg = fcfg
 	}
 	n := &Node{
 		Name:     name,
@@ -428,4 +443,38 @@ func pooled(b *frame.Builder, n int) []byte {
 		panic(core.CodeFault{Msg: fmt.Sprintf("the frame builder handed out a %d-byte buffer for a request of %d bytes (a received frame of that size cannot be parsed)", len(ps), n)})
 	}
 	return ps
+}
+
+// loadViaFile writes the configuration to a scratch file of the given type
+// ("json" or "yaml") and loads it with config.LoadConfig.
+func loadViaFile(st config.Store, typ string) (*config.Config, error) {
+	js, err := json.Marshal(&st)
+	if err != nil {
+		return nil, err
+	}
+	data := js
+	if typ == "yaml" {
+		var generic map[string]any
+		if err := json.Unmarshal(js, &generic); err != nil {
+			return nil, err
+		}
+		if data, err = yaml.Marshal(generic); err != nil {
+			return nil, err
+		}
+	}
+	dir := "/dev/shm"
+	if _, err := os.Stat(dir); err != nil {
+		dir = os.TempDir()
+	}
+	f, err := os.CreateTemp(dir, "verif-config-*."+typ)
+	if err != nil {
+		return nil, err
+	}
+	defer os.Remove(f.Name())
+	if _, err := f.Write(data); err != nil {
+		f.Close()
+		return nil, err
+	}
+	f.Close()
+	return config.LoadConfig(f.Name())
 }
